@@ -8,9 +8,13 @@
                  ["bind",k,v],["resolve",k],["fail"]],…]}          -> [{"ok":[…]}|{"err":"…"},…]
    {"op":"refresh","ann":[[v,[dims]],…],"nodes":[[id,out,[ins]],…],"query":[v,…]}
                                                                    -> [[dims]|null,…]
+   {"op":"ctx","prog":P,"raise":[k,…],"init":[names]}             -> {"raised":b,"val":[…],"trace":[[…],…]}
+        P = ["step",k] | ["read"] | ["seq",P,P] | ["token",name,P] | ["saved",name,P] | ["nofinally",name,P]
+          | ["handle",P,P] | ["assign",name]
 -/
 import Lean.Data.Json
 import J2O.Model.C14
+import J2O.Model.C14Ctx
 open Lean J2O.C14
 
 def orErr {α : Type} (x : Except String α) (f : α → Json) : Json :=
@@ -106,6 +110,30 @@ def doRefresh (j : Json) : Except String Json := do
     | none => Json.null
     | some s => Json.arr (s.map (fun (d : Nat) => Json.num (JsonNumber.fromNat d))).toArray)).toArray
 
+partial def parseProg (x : Json) : Except String J2O.C14Ctx.Prog := do
+  let a ← x.getArr?
+  let tag ← a[0]!.getStr?
+  match tag with
+  | "step" => pure (.step (← a[1]!.getNat?))
+  | "read" => pure .read
+  | "seq" => pure (.seq (← parseProg a[1]!) (← parseProg a[2]!))
+  | "token" => pure (.withToken (← a[1]!.getStr?) (← parseProg a[2]!))
+  | "saved" => pure (.withSaved (← a[1]!.getStr?) (← parseProg a[2]!))
+  | "nofinally" => pure (.noFinally (← a[1]!.getStr?) (← parseProg a[2]!))
+  | "handle" => pure (.handle (← parseProg a[1]!) (← parseProg a[2]!))
+  | "assign" => pure (.assign (← a[1]!.getStr?))
+  | t => throw s!"unknown prog {t}"
+
+def doCtx (j : Json) : Except String Json := do
+  let p ← parseProg (← j.getObjVal? "prog")
+  let rs ← natList (← j.getObjVal? "raise")
+  let init ← (← j.getObjVal? "init").getArr?
+  let init ← init.toList.mapM (fun x => x.getStr?)
+  let r := J2O.C14Ctx.exec (fun k => rs.contains k) p init
+  let strs (l : List String) : Json := Json.arr (l.map Json.str).toArray
+  return Json.mkObj [("raised", Json.bool r.raised), ("val", strs r.val),
+                     ("trace", Json.arr (r.trace.map strs).toArray)]
+
 def answer (line : String) : String :=
   match Json.parse line with
   | .error e => (Json.mkObj [("bad", Json.str e)]).compress
@@ -118,6 +146,7 @@ def answer (line : String) : String :=
       | "memo" => doMemo j
       | "convert" => doConvert j
       | "refresh" => doRefresh j
+      | "ctx" => doCtx j
       | o => throw s!"unknown op {o}"
     (orErr r id).compress
 
